@@ -216,7 +216,7 @@ class SvRunner : public SvRunnerBase {
         break;
       }
       case kSvPushBackAlias: {
-        if (old == 0) return true;
+        if (old == 0) break;
         size_t i = static_cast<size_t>(o.a) % old;
         cls += (old == x->capacity()) ? "-realloc" : "-noreloc";
         x->push_back((*x)[i]);
